@@ -202,8 +202,17 @@ def search_failing_input(ctx):
         a, ph = rng.choice([30, 60, 90, 120, 150]), rng.choice([0, 45, 90, 210])
         tau, T1, T2, g = rng.choice([2.0, 5.0, 10.0]), rng.choice([500.0, 1000.0]), rng.choice([40.0, 80.0]), rng.choice([0.0, 0.01, -0.02])
         desc = "T(%s,%s) S(1) E(%s,%s,%s,%s) T(%s,%s) S(1) E(...)" % (a, ph, tau, T1, T2, g, 2 * a, ph + 30)
+        form = "E"
         try:
-            seq = [epg.T(a, ph), epg.S(1), epg.E(tau, T1, T2, g), epg.T(2 * a, ph + 30), epg.S(1), epg.E(tau, T1, T2, g)]
+            # the same evolution written with each of the three operators that share the translated coefficient functions
+            form = rng.choice(["E", "R", "P*E"])
+            if form == "E":
+                ev = lambda: [epg.E(tau, T1, T2, g)]
+            elif form == "R":
+                ev = lambda: [epg.R(tau * (1 / T2 + 2j * np.pi * g), tau / T1, r0=tau / T1)]
+            else:
+                ev = lambda: [epg.P(tau, g), epg.E(tau, T1, T2)]
+            seq = [epg.T(a, ph), epg.S(1)] + ev() + [epg.T(2 * a, ph + 30), epg.S(1)] + ev()
             sm = epg.StateMatrix()
             for op in seq:
                 sm = op(sm)
@@ -237,7 +246,7 @@ def search_failing_input(ctx):
         coef = np.stack([(z[:, None] ** (-ks[None, :]) * m[:, c][:, None]).sum(0) / N for c in range(3)], axis=1)
         if np.abs(coef - st).max() > 1e-9:
             ctx.report("T/S/E sequence differs from Bloch isochromats (max err %.3g)" % np.abs(coef - st).max(),
-                       {"sequence": "T(%s,%s) S(1) E(%s,%s,%s,%s) T(%s,%s) S(1) E" % (a, ph, tau, T1, T2, g, 2 * a, ph + 30),
+                       {"sequence": "T(%s,%s) S(1) E(%s,%s,%s,%s) T(%s,%s) S(1) E" % (a, ph, tau, T1, T2, g, 2 * a, ph + 30), "evolution_written_as": form,
                         "failed_obligations": ctx.failed_obligations}, found_input=True)
             return
     ctx.report("proof obligations of C01 no longer check: %s" % ctx.failed_obligations,
